@@ -320,6 +320,14 @@ class CoopCondition:
     notifyAll = notify
 
 
+def _only_main_count():
+    return 1
+
+
+def _only_main_list():
+    return [_threading.main_thread()]
+
+
 class _ThreadingShim(types.ModuleType):
     def __init__(self):
         types.ModuleType.__init__(self, 'threading_shim')
@@ -327,6 +335,12 @@ class _ThreadingShim(types.ModuleType):
         self.Lock = CoopRLock
         self.Event = CoopEvent
         self.Condition = CoopCondition
+        # The scheduler's threads stand for the threads that really call into ports and parser
+        # queues: callback threads of the C libraries behind the backends and threads started with
+        # _thread - none of which the threading module knows about.  Code that asks threading how
+        # many threads there are gets the answer it would get there.
+        self.active_count = _only_main_count
+        self.enumerate = _only_main_list
 
     def __getattr__(self, name):
         # anything else (current_thread, get_ident, local, ...) is the real thing
@@ -357,6 +371,11 @@ class Patched:
             for name, repl in coop.items():
                 cur = getattr(mod, name, None)
                 if cur is not None and getattr(cur, '__module__', '').startswith(('threading', '_thread')):
+                    self.saved_names.append((mod, name, cur))
+                    setattr(mod, name, repl)
+            for name, repl in (('active_count', _only_main_count), ('enumerate', _only_main_list)):
+                cur = getattr(mod, name, None)
+                if cur is not None and cur is getattr(_threading, name):
                     self.saved_names.append((mod, name, cur))
                     setattr(mod, name, repl)
             cur = getattr(mod, 'threading', None)
